@@ -17,8 +17,11 @@ from .parser_common import (ALPHA15, RT_DEFINED, RT_UNDEFINED, hexs,
 PROP = 'C06'
 
 
+FORM = [list]
+
+
 def _parse(mido, data):
-    return mido.parse_all(list(data))
+    return mido.parse_all(FORM[0](data))
 
 
 def check_prefix(mido, P, msgs, encs, acc):
@@ -165,6 +168,22 @@ def worker(shard):
                 check_concat(mido, (first, m2, m3), acc)
         acc.sample({'concat': [first.type, msgs[3].type, msgs[12].type]},
                    cap=1)
+    elif kind == 'longprefix':
+        # long prefixes: an open sysex of n bytes with real-time bytes inside
+        # (and nothing / another status after it), then every sample message;
+        # through list, bytes and bytearray input
+        for form in (list, bytes, bytearray):
+            FORM[0] = form
+            try:
+                for n in (10, 63, 64, 65, 70, 200, 1100):
+                    for tail in ((), (0xF8,), (0xF8, 0xF0, 1), (0xFA, 0x90, 5),
+                                 (0xF8, 0xF4, 2, 0xF8)):
+                        P = (0xF0,) + (1,) * n + tail
+                        check_prefix(mido, P, msgs, encs, acc)
+            finally:
+                FORM[0] = list
+        acc.sample({'long_prefix': 'F0 + n data bytes + real-time/status tail',
+                    'forms': ['list', 'bytes', 'bytearray']}, cap=1)
     elif kind == 'long':
         n = shard[1]
         payload = [(i * 7 + 3) & 0x7F for i in range(n)]
@@ -225,6 +244,7 @@ def run():
     longs = sorted({(1 << k) + d for k in range(7, kmax + 1) for d in (-2, -1, 0, 1)}
                    | {1000, 9999, 10000, 10001, 65000, 100000})
     shards += [('long', n) for n in longs]
+    shards.append(('longprefix',))
     rep.coverage['long_sysex_payload_lengths'] = longs
     run_shards(worker, shards, rep)
     rep.coverage['exhaustive'] = True
